@@ -354,11 +354,12 @@ R.contract(
     types={"shard_hits_by_tier": "List[Dict[str, List[HitD]]]", "tiers": "List[str]", "k_retrieval": "int"},
     returns="Tuple[List[HitD], List[str]]",
     # goff[a] = position in `bucket` where shard a's hits for the current tier start (explicit witnesses)
-    ghost={"gseen": ("Set[str]", "empty"), "goff": ("List[int]", "empty")},
+    # gpos[s] = position in `out` of the hit whose id is s (explicit witness instead of an existential)
+    ghost={"gseen": ("Set[str]", "empty"), "goff": ("List[int]", "empty"), "gpos": ("Dict[str, int]", "empty")},
     requires=[("k-at-least-1", "k_retrieval >= 1")],
     asserts={
         "seen": ["ghost:gseen = seen"],
-        "call:seen.add": ["ghost:gseen = seen"],
+        "call:seen.add": ["ghost:gseen = seen", "ghost:gpos[hid] = len(out) - 1"],
         "bucket": ["ghost:goff.clear()"],
         "call:bucket.extend": ["ghost:goff.append(len(bucket) - len(hits))"],
         "call:bucket.sort": ["forall(a, 0 <= a < len(%s), implies(tier in %s[a], forall(i, 0 <= i < len(%s[a][tier]), "
@@ -369,25 +370,25 @@ R.contract(
          "implies(len(result[0]) < k_retrieval, forall(t, 0 <= t < len(tiers), " +
          _ALL_TIER_IDS_SEEN % {"S": _S, "T": "tiers[t]", "seen": "gseen"} + "))"),
         ("returned-ids-are-exactly-the-seen-ids",
-         "forall((s, 'str'), s in gseen, exists(j, 0 <= j < len(result[0]), hit_id(result[0][j]) == s))"),
+         "forall((s, 'str'), s in gseen, s in gpos and 0 <= gpos[s] and gpos[s] < len(result[0]) and hit_id(result[0][gpos[s]]) == s)"),
     ],
     raises="none",
     loops={
-        0: {"index": "_t", "modifies": ["gseen", "goff"], "inv": [
+        0: {"index": "_t", "modifies": ["gseen", "goff", "gpos"], "inv": [
             "len(out) < k_retrieval and gseen == seen",
             "forall(t, 0 <= t < _t, " + _ALL_TIER_IDS_SEEN % {"S": _S, "T": "tiers[t]", "seen": "seen"} + ")",
-            "forall((s, 'str'), s in seen, exists(j, 0 <= j < len(out), hit_id(out[j]) == s))",
+            "forall((s, 'str'), s in seen, s in gpos and 0 <= gpos[s] and gpos[s] < len(out) and hit_id(out[gpos[s]]) == s)",
         ]},
         1: {"modifies": ["goff"], "inv": [
             "len(goff) == _i",
             "forall(a, 0 <= a < _i, 0 <= goff[a] and implies(tier in %s[a], goff[a] + len(%s[a][tier]) <= len(bucket) and "
             "forall(i, 0 <= i < len(%s[a][tier]), bucket[goff[a] + i] == %s[a][tier][i])))" % (_S, _S, _S, _S),
         ]},
-        2: {"modifies": ["gseen"], "inv": [
+        2: {"modifies": ["gseen", "gpos"], "inv": [
             "len(out) < k_retrieval and gseen == seen",
             "forall(p, 0 <= p < _i, hit_id(_iter[p]) in seen)",
             "forall((s, 'str'), s in pre_loop(seen), s in seen)",
-            "forall((s, 'str'), s in seen, exists(j, 0 <= j < len(out), hit_id(out[j]) == s))",
+            "forall((s, 'str'), s in seen, s in gpos and 0 <= gpos[s] and gpos[s] < len(out) and hit_id(out[gpos[s]]) == s)",
         ]},
     },
     locals={"seen": "Set[str]", "out": "List[HitD]", "used_tiers": "List[str]", "bucket": "List[HitD]"},
